@@ -842,6 +842,21 @@ impl SixelImageHandler {
     }
 }
 
+/// Verification hooks (add-only, compiled only with the `verif-hooks` feature)
+#[cfg(feature = "verif-hooks")]
+impl SixelImageHandler {
+    /// Override the accounted size of the encoded-image cache, so that the eviction
+    /// loop of `draw` can be reached without 128MB of sixel output.
+    pub fn verif_set_cache_size(&mut self, size: usize) {
+        self.size = size;
+    }
+
+    /// Accounted size and number of entries of the encoded-image cache
+    pub fn verif_cache_state(&self) -> (usize, usize) {
+        (self.size, self.imgs.len())
+    }
+}
+
 impl ImageHandler for SixelImageHandler {
     fn kind(&self) -> ImageHandlerKind {
         ImageHandlerKind::Sixel
@@ -1713,7 +1728,7 @@ impl ColorPalette {
         if img.is_empty() {
             return None;
         }
-        let sample: u32 = (img.height() * img.width() / (palette_size * 100)) as u32;
+        let sample: u32 = (img.height() * img.width() / palette_size.saturating_mul(100)) as u32;
         let mut octree: OcTree = if sample < 2 {
             img.iter().map(|c| blend(bg, *c)).collect()
         } else {
